@@ -180,6 +180,38 @@ func (fr *Frame) candidates(li *loopInfo) []autoInv {
 			}
 		}
 	}
+	// (e') array ghosts: the prefix below the function-entry value of an int ghost of the
+	// same owner is kept (append-only streams)
+	for _, gk := range gnames {
+		ga := fr.ex.P.db.Ghosts[gk]
+		if ga.Sort == SBool || ga.Sort == SInt {
+			continue
+		}
+		if !li.keys["GH:"+ga.Owner+"."+ga.Name] && !li.keys["*"] {
+			continue
+		}
+		for _, gk2 := range gnames {
+			gi := fr.ex.P.db.Ghosts[gk2]
+			if gi.Sort != SInt || gi.Owner != ga.Owner {
+				continue
+			}
+			for _, p := range fr.fn.Params {
+				p := p
+				tn := typeName(p.Type())
+				if tn != ga.Owner && tn != "*"+ga.Owner {
+					continue
+				}
+				ga, gi := ga, gi
+				cs = append(cs, autoInv{fmt.Sprintf("keep prefix %s.%s below %s", p.Name(), ga.Name, gi.Name), func(fr *Frame, st *State, _ map[*ssa.Phi]Val, entry *State) Term {
+					env := fr.ex.newEnv(st, st, fr)
+					ha, hi := env.ghostHeap(ga), env.ghostHeap(gi)
+					r := refOf(fr.vals[p])
+					k := Term{"gk", SInt}
+					return Forall([]string{"gk"}, Implies(And(Le(Int(0), k), Lt(k, Select(fr.entry.get(hi), r))), Eq(Select(Select(st.get(ha), r), k), Select(Select(fr.entry.get(ha), r), k))))
+				}})
+			}
+		}
+	}
 	// (f) frame candidates: a heap the loop may write is unchanged on the objects
 	// that existed when the function was entered
 	var hnames []string
@@ -342,7 +374,7 @@ func (fr *Frame) enterLoop(li *loopInfo, in *State) *State {
 			// bounds come from the declared invariants; keep only the frame-like candidates
 			var fc []autoInv
 			for _, c := range cands {
-				if strings.HasPrefix(c.label, "frame ") || strings.HasPrefix(c.label, "keep ") || strings.HasSuffix(c.label, "fresh-or-nil") || strings.HasPrefix(c.label, "paraminv ") || strings.HasSuffix(c.label, " unchanged") {
+				if strings.HasPrefix(c.label, "frame ") || strings.HasPrefix(c.label, "keep ") || strings.HasSuffix(c.label, "fresh-or-nil") || strings.HasPrefix(c.label, "paraminv ") || strings.HasSuffix(c.label, " unchanged") || strings.HasPrefix(c.label, "rangeindex") {
 					fc = append(fc, c)
 				}
 			}
